@@ -6,4 +6,5 @@ MCProg == (1 :> <<[api |-> "set", key |-> "k", val |-> "a", chunks |-> 2]>>) @@
           (2 :> <<[api |-> "get", key |-> "k", val |-> "", chunks |-> 0], [api |-> "put", key |-> "k", val |-> "b", chunks |-> 1]>>)
 MCPre == {[key |-> "k", val |-> "old"]}
 NoDebris == {}
+NoKeyShards == <<>>
 ====
